@@ -117,6 +117,21 @@ func runC01(c *an.Ctx, p *an.Prog, thorough bool) {
 		}
 	}
 	c015(c, p)
+	// C01.7: the verdict must track the last *acknowledged* write: a write that reports failure must not have
+	// replaced the record (shared with C15.6)
+	{
+		sub := an.NewCtx("C01", c.Tier, c.Seed)
+		sub.P = p
+		c156(sub, p, newFsx(p))
+		for _, o := range sub.Obs {
+			k := strings.TrimPrefix(o.Key, "C15.6|")
+			if o.Status == "discharged" {
+				c.OK("C01.7", k, o.Pos, o.Detail)
+			} else {
+				c.Fail("C01.7", k, o.Pos, o.Detail)
+			}
+		}
+	}
 }
 
 func c015(c *an.Ctx, p *an.Prog) {
